@@ -30,3 +30,9 @@ func init() {
 		Old: "\t\tz, err := cz.Decompress(r.Body)\n\t\tif err != nil {\n\t\t\treturn err\n\t\t}\n", New: "\t\tz, err := cz.Decompress(r.Body)\n\t\tif err != nil {\n\t\t\treturn err\n\t\t}\n\t\tif zr, ok := z.(*gzipReader); ok {\n\t\t\tdefer func() {\n\t\t\t\tif zr.Reader != nil {\n\t\t\t\t\tzr.pool.Put(zr.Reader)\n\t\t\t\t\tzr.Reader = nil\n\t\t\t\t}\n\t\t\t}()\n\t\t}\n",
 		Expect: "deferred-decompressor-release", Why: "decompressor returned to the pool at handler return"})
 }
+
+func init() {
+	control(&Control{ID: "limitnonpos-zero-means-unlimited", Rule: "LIMIT-NONPOS", File: "larking/codec.go",
+		Old: "\tif size > math.MaxInt || limit < 0 || size > uint64(limit) {\n", New: "\tif size > math.MaxInt || (limit > 0 && size > uint64(limit)) {\n",
+		Expect: "limit<=0-is-a-limit", Why: "a limit of zero or less switches the size check off (D56)"})
+}
